@@ -451,6 +451,13 @@ func (s *Supervisor) ForkingWorkerState(e *am.Event) {
 
 	// test forking, if provided
 	if s.TestFork != nil {
+		// fake entry, tracked before forking (like a real fork), so a fork in
+		// progress counts towards Max
+		s.Mach.Add1(ssS.SetWorker, Pass(&A{
+			WorkerAddr: bootAddr,
+			WorkerInfo: newWorkerInfo(s, nil),
+		}))
+
 		// unblock
 		go func() {
 			if ctx.Err() != nil {
@@ -458,13 +465,10 @@ func (s *Supervisor) ForkingWorkerState(e *am.Event) {
 			}
 			if err := s.TestFork(bootAddr); err != nil {
 				AddErrWorker(e, s.Mach, err, Pass(argsOut))
+				// nothing got forked
+				s.Mach.Add1(ssS.SetWorker, Pass(&A{WorkerAddr: bootAddr}))
 				return
 			}
-			// fake entry
-			s.Mach.Add1(ssS.SetWorker, Pass(&A{
-				WorkerAddr: bootAddr,
-				WorkerInfo: newWorkerInfo(s, nil),
-			}))
 		}()
 
 		// tests end here
